@@ -1,6 +1,9 @@
 package props
 
 import (
+	"strings"
+	"path/filepath"
+	"os"
 	"fmt"
 	"sort"
 
@@ -86,6 +89,18 @@ func compileTexts(texts map[string]string, order []string, feats []string, filte
 				}
 			}
 			switch compileFeatureForm {
+			case 4:
+				// a features directory: <dir>/<module>/<feature> exists for every enabled feature
+				if dir, derr := os.MkdirTemp("", "verif-features-"); derr == nil {
+					defer os.RemoveAll(dir)
+					for _, f := range feats {
+						if i := strings.Index(f, ":"); i > 0 {
+							os.MkdirAll(filepath.Join(dir, f[:i]), 0o755)
+							os.WriteFile(filepath.Join(dir, f[:i], f[i+1:]), nil, 0o644)
+						}
+					}
+					fc = compile.FeaturesFromLocations(true, dir)
+				}
 			case 1:
 				fc = compile.MultiFeatureCheckers(compile.FeaturesFromNames(true, compileAllFeatures...), compile.FeaturesFromNames(false, off...))
 			case 2:
